@@ -103,3 +103,4 @@ Example C13_sample_example :
   time_respecting_paths_sel (fun l => tl l) g 1 None None None = PathsOk [[(1, 2, 0); (2, 3, 1)]] /\
   time_respecting_paths g 1 None None None = PathsOk [[(1, 2, 0)]; [(1, 2, 0); (2, 3, 1)]].
 Proof. vm_compute. auto. Qed.
+Print Assumptions C13_sample_example.
